@@ -23,6 +23,8 @@ def load_unit(name):
     mod = importlib.util.module_from_spec(spec)
     spec.loader.exec_module(mod)
     u = mod.UNIT
+    if os.environ.get("VERIF_ASFOUND") and hasattr(mod, "UNIT_ASFOUND"):
+        u = mod.UNIT_ASFOUND
     u.setdefault("name", name)
     return u
 
